@@ -114,6 +114,7 @@ ConnKinds == {"sB",   \* request served completely before the shutdown call; cli
               "iR",   \* idle keep-alive; a new request is sent after the shutdown began
               "bA",   \* busy: handler returns after the shutdown began (driver saw the hook signal)
               "bL",   \* busy: handler returns only after Shutdown returned (exit wait time elapsed)
+              "bH",   \* like bA, but the request is HTTP/1.0 with Connection: keep-alive
               "mR",   \* mid-request: half a request head before, the rest after the shutdown began
               "fR",   \* connected before, first request sent after the shutdown began
               "bW",   \* response writing in progress: 8 MiB body, client reads after the shutdown began
